@@ -58,11 +58,32 @@ def lane_cases(kernels, seed, tier):
         while len(pairs) % L:
             pairs.append(fit(k, rng.word(), rng.word()))
         groups = [pairs[i:i + L] for i in range(0, len(pairs), L)]
+        TWO_OUT = k.endswith('_128') or k.endswith('_72')
+        UNARY = k.startswith('toCanonical') or k.startswith('shift') or k.startswith('square')
         for gi, g in enumerate(groups):
             out.append(('lane', k, g))
             if gi % 5 == 0:       # the same operands in rotated lane positions, different neighbours
                 r = (gi // 5) % (L - 1) + 1
                 out.append(('lane', k, g[r:] + g[:r]))
+            if gi % 4 == 1 and not TWO_OUT:     # register aliasing: the output register is an operand register
+                modes = ['ca'] if UNARY else ['ca', 'cb', 'all']
+                mode = modes[(gi // 4) % len(modes)]
+                gg = g
+                if mode == 'all':
+                    gg = [fit(k, a, a) for a, _ in g]
+                    gg = [(a, a) for a, _ in gg] if all(fit(k, a, a) == (a, a) for a, _ in gg) else None
+                if gg:
+                    out.append(('lane', k, gg, mode))
+        # every small/large pattern across the lanes of one register (a kernel must not look at its neighbours)
+        smalls = [3, 1, 0, 0xFFFFFFFF, 2, 0x10000]; larges = [M - 1, 1 << 32, P - 1, (1 << 63) + 5, P + 7, 0xFFFFFFFF00000000]
+        for pat in (range(1 << L) if L == 4 else list(range(0, 256, 5)) + [0x0F, 0xF0, 0xCC, 0x33, 0xFC, 0x03]):
+            g = []
+            for i in range(L):
+                big = (pat >> i) & 1
+                a = (larges if big else smalls)[(pat + i) % 6]
+                b = (larges if ((pat >> ((i + 1) % L)) & 1) else smalls)[(pat + 2 * i) % 6]
+                g.append(fit(k, a, b))
+            out.append(('lane', k, g))
     return out
 
 
@@ -160,6 +181,8 @@ def mat_cases(kernels, seed, tier, consts=None):
                     blk = 4 if ns == 12 else 8
                     s = [(0x0101010101010101 if (t // blk) == (i // 6) % 3 else 0) for t in range(ns)]
             out.append(('mat', k, s, m))
+            if i % 4 == 0 and ('spmv' in k or '4x12' in k):
+                out.append(('mat', k, s, m, 'ca'))      # in place: the output register is the first state register
     return out
 
 
@@ -167,9 +190,11 @@ def write_cases(path, cases):
     with open(path, 'w') as f:
         for c in cases:
             if c[0] == 'lane':
-                f.write('lane %s %s\n' % (c[1], ' '.join('0x%x 0x%x' % p for p in c[2])))
+                tag = ('@' + c[3]) if len(c) > 3 and c[3] else ''
+                f.write('lane%s %s %s\n' % (tag, c[1], ' '.join('0x%x 0x%x' % p for p in c[2])))
             else:
-                f.write('mat %s %d %s %d %s\n' % (c[1], len(c[2]), ' '.join('0x%x' % x for x in c[2]), len(c[3]), ' '.join('0x%x' % x for x in c[3])))
+                tag = ('@' + c[4]) if len(c) > 4 and c[4] else ''
+                f.write('mat%s %s %d %s %d %s\n' % (tag, c[1], len(c[2]), ' '.join('0x%x' % x for x in c[2]), len(c[3]), ' '.join('0x%x' % x for x in c[3])))
 
 
 def gen_lane_model(ck, wd):
@@ -271,8 +296,8 @@ def replay(ck, wd, variant, cases, label, keyfn):
 
 def case_from_json(c):
     if c[0] == 'lane':
-        return ('lane', c[1], [tuple(p) for p in c[2]])
-    return ('mat', c[1], c[2], c[3])
+        return ('lane', c[1], [tuple(p) for p in c[2]]) + tuple(c[3:4])
+    return ('mat', c[1], c[2], c[3]) + tuple(c[4:5])
 
 
 def chain_leads(out, W=2):
